@@ -49,6 +49,18 @@ def translate():
         "idx_resample=np.random.choice(n_cluster,size=n_resample,replace=True,p=weights_cluster)", "u_resampled=u_cluster[idx_resample]"))
     fg = _ns(get_function(mo, "ModeStatistics.from_global")).replace("\n", "")
     f["global_mode_fitted_to_a_weighted_resample_of_all_particles"] = "u_resampled=u[idx_resample]" in fg and "p=weights" in fg
+    # the configured fallback is the one that reaches the kernel: every construction of mode statistics in the trainer passes its
+    # own DOF_FALLBACK, and the core hands the package constant to the trainer
+    tr_fn = get_function(REPO / "tempest" / "steps" / "train.py", "Trainer.run")
+    calls = [c for c in ast.walk(tr_fn) if isinstance(c, ast.Call) and _ns(c.func) in ("ModeStatistics.from_particles", "ModeStatistics.from_global")]
+    f["trainer_passes_its_fallback_to_every_mode_construction"] = len(calls) == 3 and all(
+        any(kw.arg == "dof_fallback" and _ns(kw.value) == "self.DOF_FALLBACK" for kw in c.keywords) for c in calls) \
+        and "degrees_of_freedom=np.array([self.DOF_FALLBACK])" in _ns(tr_fn)
+    tr_init = _ns(get_function(REPO / "tempest" / "steps" / "train.py", "Trainer.__init__"))
+    co_init = _ns(get_function(REPO / "tempest" / "core.py", "SamplerCore.__init__"))
+    f["core_hands_the_configured_fallback_to_the_trainer"] = "self.DOF_FALLBACK=DOF_FALLBACK" in tr_init and "DOF_FALLBACK=DOF_FALLBACK" in co_init \
+        and any(isinstance(n, ast.ImportFrom) and any(a.name == "DOF_FALLBACK" for a in n.names)
+                for n in ast.walk(ast.parse((REPO / "tempest" / "core.py").read_text())))
     for k, v in f.items():
         need(v, fn, k, w)
     text = "(* GENERATED from student.py and modes.py by tools/props/c19.py *)\n" + \
@@ -256,6 +268,56 @@ def check_per_cluster(run, rng):
                 break
 
 
+def check_fallback_end_to_end(run):
+    """the degrees of freedom that reach the kernels: with the fit returning nu = inf (it always does on this tree, see the
+    listed finding) they must be the configured fallback - the package constant in Sampler runs, the Trainer's own value when a
+    Trainer is built directly, on refit AND on reuse iterations"""
+    import tempest.steps.mutate as mut
+    import tempest.config as cfgmod
+    from tempest import Sampler
+    seen = []
+    orig = mut.parallel_mcmc
+
+    def pm(*a, **k):
+        seen.append([float(v) for v in np.asarray(k["mode_stats"].degrees_of_freedom)])
+        return orig(*a, **k)
+    mut.parallel_mcmc = pm
+    try:
+        for cfg in (dict(clustering=False), dict(clustering=True, cluster_every=1), dict(clustering=True, cluster_every=2)):
+            del seen[:]
+            s = Sampler(lambda u: 6 * u - 3, lambda x: -0.5 * float(np.sum(x ** 2)), n_dim=2, n_particles=16, random_state=5, **cfg)
+            s.run(n_total=32, progress=False)
+            run.case(key=("fallback-e2e", str(cfg)), nontrivial=True)
+            bad = [d for d in seen if any(v != cfgmod.DOF_FALLBACK for v in d)]
+            if not seen or bad:
+                run.fail("nonfinite-dof-reaches-kernel" if bad and not all(np.isfinite(bad[0])) else "fallback-not-the-configured-one",
+                         f"Sampler({cfg}): the kernel received degrees of freedom {bad[0] if bad else None}; the fit returns inf and the "
+                         f"configured fallback is {cfgmod.DOF_FALLBACK}", cfg=cfg)
+    finally:
+        mut.parallel_mcmc = orig
+    # a Trainer built directly with its own fallback, driven through a refit and a reuse iteration
+    from tempest.state_manager import StateManager
+    from tempest.steps.train import Trainer
+    from tempest.cluster import HierarchicalGaussianMixture
+    from tempest.config import TRIM_ESS, TRIM_BINS
+    nr = np.random.RandomState(3)
+    u = np.clip(np.vstack([0.3 + 0.03 * nr.randn(60, 2), 0.7 + 0.03 * nr.randn(60, 2)]), 0.01, 0.99)
+    st = StateManager(2)
+    st.update_current({"u": u, "x": u.copy(), "logl": np.zeros(len(u)), "beta": 0.0, "logz": 0.0, "iter": 1})
+    st.commit_current_to_history()
+    tr = Trainer(state=st, clusterer=HierarchicalGaussianMixture(n_init=1, normalize=True), cluster_every=3, clustering=True,
+                 TRIM_ESS=TRIM_ESS, TRIM_BINS=TRIM_BINS, DOF_FALLBACK=7.5)
+    for it in (3, 4, 5, 6):
+        st.set_current("beta", 0.1 * it)
+        st.set_current("iter", it)
+        np.random.seed(it)
+        ms = tr.run(np.ones(len(u)) / len(u))
+        run.case(key=("fallback-trainer", it), nontrivial=True)
+        if any(float(v) != 7.5 for v in ms.degrees_of_freedom):
+            run.fail("fallback-not-the-configured-one", f"Trainer(DOF_FALLBACK=7.5, cluster_every=3) at iteration {it} "
+                     f"({'refit' if it % 3 == 0 else 'reuse'}): degrees of freedom {[float(v) for v in ms.degrees_of_freedom]}", iteration=it)
+
+
 def main(tier, seed):
     run = Run(PID, tier, seed)
     run.rule = ("data sets d in {1,2,3,4,6,8}, n from 4d to 300 from Gaussian, t3, skewed (Gamma), contaminated and correlated "
@@ -281,6 +343,7 @@ def main(tier, seed):
         check_step_model(run, tier, rng)
         check_fallback(run)
         check_per_cluster(run, rng)
+        check_fallback_end_to_end(run)
     except Exception:
         import traceback
         run.broken.append(("harness-exception", traceback.format_exc()[-1500:]))
